@@ -525,6 +525,7 @@ def c03(res):
     res.models.append(prove("IntervalOpsProof", wd))
     res.models.append(model_check("Interval", "Interval_quick.cfg" if q else "Interval_thorough.cfg", wd, workers=8, timeout=3000))
     res.models.append(model_check("Interval", "Interval_inf.cfg", wd, workers=8, timeout=3000))     # 3-point line, depth 12
+    res.models.append(model_check("HashSeed", "HashSeed.cfg", wd, workers=2))                       # signed zeros reaching mix / rand
     progs = gen_programs(res, wd)
     trace = os.path.join(wd, "trace.ndjson")
     classes = os.path.join(wd, "classes.out")
